@@ -90,9 +90,9 @@ CLAIMED['C18'] = dict(
           "registrations made on that class since its definition; a solve runs pre-processors of base classes before subclasses, in "
           "registration order, skipping factories that return nothing, each on its predecessor's output, then the unit, then the "
           "post-processors in the same order on the returned profile only; a registration applies to exactly the classes having "
-          "the registering class in their MRO (whenever defined). One unit solved repeatedly with changing factory answers, and in-place processors on base classes / on the next unit, are checked on the implementation (partial: not in the model)."),
+          "the registering class in their MRO (whenever defined). Processors are units like any other (nested model ProcNest.v): for every state, class, nesting depth and table of answers, the unit solved at any depth - also a product of the class its factory is registered on - is asked for by exactly the factories of the walk over its class, each once, in order; a re-entrancy guard is refuted. One unit solved repeatedly with changing factory answers, and in-place processors on base classes / on the next unit, are checked on the implementation (partial: not in the model)."),
     note=("Trusted: Coq kernel (no axioms); hand-written model coq/lib/Processors.v tied to unit.py by the correspondence run on real "
-          "dynamically created Transport subclasses (alone and inside sequences); processors are modelled by the mark they leave."),
+          "dynamically created Transport subclasses (alone and inside sequences; 120/1200 nested arrangements against ProcNest.nsolve); processors are modelled by the mark they leave."),
     ref="DESIGN.md section 4 C18")
 
 CLAIMED['C14'] = dict(
